@@ -769,7 +769,11 @@ func Run(c *hx.Ctx) {
 		"PDF writer, through tabula.Open(f).Pages(S).ExcludeHeaders()/ExcludeFooters()/ExcludeHeadersAndFooters().Lines()/Text(), page by page, for the subset S and for the whole document (no Pages call). " +
 		"Long documents: the same generator with 15 to 140 (thorough: 520) pages, page counts drawn around 16/20/25/32/50/64/100/128/200/256/…, directly and as PDFs requested as a whole, as Pages(S), " +
 		"as PageRange(a, b) (random half, sparse, contiguous run, tail only, one late page) and page by page on a sample of pages (first, last, one of the last quarter, two random). " +
-		"Non-trivial = at least one fragment was removed."
+		"Extractor histories: on a rendered PDF one source (tabula.Open(f) or tabula.FromReader(r)) serves a script of 3-8 requests - variables derived from the source or from each other by Pages/PageRange and " +
+		"ExcludeHeaders/ExcludeFooters/ExcludeHeadersAndFooters in either order, each followed by a terminal operation (Lines, Text, Paragraphs, Blocks judged; Fragments, PageCount, IsCharacterLevel, IsMultiColumn, Analyze, Document, " +
+		"ReadingOrder, Headings, Lists, ToMarkdown only making history): unfiltered reference first then exclusion, exclusion first then the reference, a non-extracting call first, chains of derivations, one excluding extractor used " +
+		"repeatedly, free mixes; every judged answer is held against the written document and the request alone (unfiltered: everything written; excluded: sublist, body band, unrepeated marginal text, no-repetition identity, liveness on every requested page, detection on all pages). " +
+		"Non-trivial = at least one fragment was removed (histories: a judged request with exclusion ran)."
 	for wi, d := range []Doc{witnessB20(), witnessEmbeddedNumber(), witnessCharLevel(), witnessCover(), witnessMixedSizes()} {
 		directCase(c, d, true)
 		script, kind := genScript(c.Rng.Fork(uint64(3_000_000+wi)), len(d.Pages))
@@ -831,6 +835,7 @@ func Run(c *hx.Ctx) {
 		pdfCase(c, d, subset, excl, r, true)
 	}
 	longDocs(c)
+	histories(c)
 	os.RemoveAll(filepath.Join(c.OutDir, "pdf"))
 }
 
@@ -873,6 +878,10 @@ func Replay(c *hx.Ctx, kase map[string]interface{}) {
 		pdfCaseInfo(c, ci, nil, false)
 	case "seq":
 		seqCase(c, ci.Doc, ci.Script, "replay", false)
+	case "hist":
+		if ci.Hist != nil {
+			histRun(c, ci.Doc, *ci.Hist, nil)
+		}
 	case "docx":
 		var k struct {
 			P        string
